@@ -38,7 +38,14 @@ def run(F, R, tier):
         lp = [x for x in k_ancestors(tr[0]) if x["k"] == "For"]
         R.ob("C11-a", "every entrypoint is traced", bool(lp) and tyc(F, lp[0]["iter"], "BTreeSet<url::Url>") and peel_value(a[1]).get("lid") in {b["lid"] for b in pat_bindings(lp[0]["pat"])}, "not a loop over all entrypoints", where(tr[0]))
         g = guards_at(F, tr[0])
-        R.ob("C11-a", "tracing is skipped only when an entrypoint already has a diagnostic", [x.text() for x in g if x.kind == "cond"] == ["!(had_diagnostic)"], "guards %s" % [x.text() for x in g], where(tr[0]))
+        cg = [x for x in g if x.kind == "cond"]
+        ok = len(cg) == 1 and not cg[0].pol and peel(cg[0].node).get("res") == "local" and tyc(F, cg[0].node, "bool")
+        if ok:
+            # the flag is only ever set to true next to pushing an entrypoint diagnostic
+            lid = peel(cg[0].node)["lid"]
+            sets = [n for n in fd["_nodes"] if n["k"] == "Assign" and peel(n["l"]).get("lid") == lid]
+            ok = bool(sets) and all(peel(n["r"]).get("v") is True and any(y.get("k") == "MethodCall" and y["name"] == "push" and mentions_field(y, "diagnostics") for y in walk(n["_p"]["_p"])) for n in sets)
+        R.ob("C11-a", "tracing is skipped only when an entrypoint already has a diagnostic", ok, "guards %s" % [x.text() for x in g], where(tr[0]))
     dr = [n for n in fd["_nodes"] if n["k"] == "While" and mentions_field(n["cond"], "pending_traces")]
     R.ob("C11-a", "the trace queue is drained", len(dr) == 1 and any(callee_matches(x, [RF + "analyze_trace"]) for x in walk(dr[0]["body"])), "pending traces are not all analysed", fd["file"])
     ep = [n for n in fd["_nodes"] if n.get("k") == "MethodCall" and n["name"] == "values" and tyc(F, n["recv"], "BTreeMap<std::string::String, std::string::String>")]
